@@ -16,7 +16,7 @@ IsEvent(name) == l <= Len(TLog) /\ Ev.a = name /\ l' = l + 1
 F(f) == [a \in Accts |-> f[a]]          \* JSON object -> function over Accts
 
 TraceInit ==
-    /\ l = 1 /\ fees = 0 /\ total = 0
+    /\ l = 1 /\ fees = 0 /\ total = 0 /\ minted = 0
     /\ bal = [a \in Accts |-> 0] /\ nonce = [a \in Accts |-> 0] /\ exists = [a \in Accts |-> FALSE]
     /\ eco = [minPrice |-> 1, minLimit |-> 1, perByte |-> 0, maxGas |-> 2, num |-> 1, den |-> 1, fp |-> TRUE, fm |-> TRUE,
               supply |-> 0]
@@ -30,26 +30,32 @@ TNew ==
     /\ eco' = Ev.in.eco
     /\ Observe
     /\ Ev.st.fees = 0
-    /\ total' = SumOver(F(Ev.st.bal), Accts)
+    /\ total' = SumOver(F(Ev.st.bal), Accts) /\ minted' = 0
     /\ hist' = <<[a |-> "New", in |-> Ev.in, out |-> Ev.out, st |-> Ev.st]>>
 
 \* what C23 distinguishes: success, failure that charges the fee, rejection without effect (which rejection is not prescribed)
-Coarse(res) == IF res \in {"ok", "commit"} THEN res ELSE IF res = "insufficientFunds" THEN "failed-and-charged" ELSE "rejected"
+Coarse(res) == IF res \in {"ok", "commit"} THEN res
+               ELSE IF res \in {"insufficientFunds", "notPayable"} THEN "failed-and-charged" ELSE "rejected"
 Matches == /\ Coarse(hist'[1].out.res) = Coarse(Ev.out.res)
            /\ bal' = F(Ev.st.bal) /\ nonce' = F(Ev.st.nonce) /\ exists' = F(Ev.st.exists) /\ fees' = Ev.st.fees
 
 TxOf(in) == [snd |-> in.snd, rcv |-> in.rcv, dn |-> in.nonce - nonce[in.snd], value |-> in.value, price |-> in.price,
              gl |-> in.gl, dl |-> in.dl]
 
+\* observation only: the amount the named deviation accounts without charging it (the specification's formula, so that
+\* conservation is still evaluated honestly on what the code did)
+ObsMinted == IF Ev.a = "Process" /\ Ev.out.res = "notPayable"
+             THEN minted + (ConsumedFee(TxOf(Ev.in)) - MoveFee(TxOf(Ev.in))) ELSE minted
+
 TProcess ==
     /\ IsEvent("Process")
     /\ IF Strict THEN Process(TxOf(Ev.in)) /\ Matches
-       ELSE /\ Observe /\ UNCHANGED <<eco, total>>
+       ELSE /\ Observe /\ UNCHANGED <<eco, total>> /\ minted' = ObsMinted
             /\ hist' = <<[a |-> "Process", in |-> Ev.in, out |-> Ev.out, st |-> Ev.st]>>
 TCommit ==
     /\ IsEvent("Commit")
     /\ IF Strict THEN Commit /\ Matches
-       ELSE /\ Observe /\ UNCHANGED <<eco, total>>
+       ELSE /\ Observe /\ UNCHANGED <<eco, total, minted>>
             /\ hist' = <<[a |-> "Commit", in |-> Ev.in, out |-> Ev.out, st |-> Ev.st]>>
 
 TraceNext == TNew \/ TProcess \/ TCommit
@@ -61,7 +67,8 @@ TAct_C23_NonceIffCharged ==
     [][ IsNewStep \/
         IF fees' > fees
         THEN \E s \in Accts : /\ nonce' = [nonce EXCEPT ![s] = @ + 1]
-                              /\ bal'[s] <= bal[s] - (fees' - fees)
+                              /\ bal'[s] < bal[s]
+                              /\ bal'[s] <= bal[s] - ((fees' - fees) - (minted' - minted))
         ELSE nonce' = nonce /\ bal' = bal /\ fees' = fees ]_cvars
 TAct_C23_Outcomes ==
     [][ (~IsNewStep /\ Last.a = "Process") =>
@@ -71,8 +78,8 @@ TAct_C23_Outcomes ==
                      /\ fee >= 0
                      /\ IF tx.snd = tx.rcv THEN bal' = [bal EXCEPT ![tx.snd] = @ - fee]
                         ELSE bal' = [bal EXCEPT ![tx.snd] = @ - tx.value - fee, ![tx.rcv] = @ + tx.value]
-                [] Last.out.res = "insufficientFunds" ->
-                     /\ fee >= 0 /\ bal' = [bal EXCEPT ![tx.snd] = @ - fee]
+                [] Last.out.res \in {"insufficientFunds", "notPayable"} ->
+                     /\ fee >= 0 /\ bal' = [bal EXCEPT ![tx.snd] = @ - (fee - (minted' - minted))]
                 [] OTHER -> bal' = bal /\ fees' = fees /\ nonce' = nonce ]_tvars
 
 HighWater == TLCSet(1, IF l > TLCGet(1) THEN l ELSE TLCGet(1))
